@@ -31,12 +31,22 @@ def cases(tier, seed):
 
     # both kinds of extra linear column at once (their order matters), and a reference epoch that is not the first observation
     yield "2/1/None/day/km/s", {"pt": 2, "no": 1, "customK": False, "s": None, "Pu": "day", "vu": "km/s", "seed": int(seed) + 5, "layout": "disjoint"}
+    yield from _fcm_cases()
+    # a constant, non-zero jitter (not a sampled one): it still inflates the uncertainties of the MCMC model
+    yield "2/0/fixed-s/day/km/s", {"pt": 2, "no": 0, "customK": False, "s": "fixed", "Pu": "day", "vu": "km/s", "seed": int(seed) + 5, "layout": "single"}
     yield "2/0/None/day/km/s/tref", {"pt": 2, "no": 0, "customK": False, "s": None, "Pu": "day", "vu": "km/s", "seed": int(seed) + 5,
                                      "layout": "single-tref+30"}
 
 
+def _fcm_cases():
+    # the K prior the MCMC model inherits from the sampler: its scale rule incl. the cap, with sigma_K0 declared in another velocity unit
+    for P0u in ("yr",):
+        for sKu in ("km/s", "m/s"):
+            yield f"K-prior/{P0u}/{sKu}", {"kind": "fcm", "P0u": P0u, "sKu": sKu, "pt": 0, "no": 0, "layout": "fcm"}
+
+
 def priority(inp):
-    return 0 if (inp["pt"] == 2 and inp["no"] == 1) or inp["layout"] != "single" and inp["no"] == 0 else 1
+    return 0 if (inp["pt"] == 2 and inp["no"] == 1) or inp["layout"] != "single" and inp["no"] == 0 or inp.get("s") == "fixed" else 1
 
 
 def nontrivial(inp):
@@ -50,6 +60,9 @@ def check(inp):
     from scipy.stats import norm
     import thejoker.units as xu
     from thejoker import TheJoker
+    if inp.get("kind") == "fcm":
+        import t09
+        return t09.check(inp)
     fails = []
     bad = lambda name, **d: fails.append((f"twin:setup_mcmc/{name}", d))
     # a fresh prior per case (setup_mcmc adds variables to the prior's model)
@@ -69,7 +82,7 @@ def check(inp):
     vu = u.Unit(inp["vu"])
     names = [n for n in prior.par_names]
     inputs = [prior.pars[n] for n in names if prior.pars[n].owner is not None and hasattr(prior.pars[n].owner.op, "rng_fn") or True]
-    free = [prior.pars[n] for n in names if n != "s" or inp["s"]]
+    free = [prior.pars[n] for n in names if n != "s" or inp["s"] is True]
     fn = pytensor.function(free, [model.named_vars["model_rv"], model.named_vars["ln_likelihood"]], on_unused_input="ignore")
     srcs = [data] if inp["no"] == 0 else list(data)
     for r in range(3):
